@@ -365,6 +365,9 @@ func (r *Reporter) finish() {
 }
 
 func (r *Reporter) writeEvidence() {
+	if len(propID) < 2 || propID[0] != 'C' || propID[1] < '0' || propID[1] > '9' {
+		return // triage aids and selftest write no evidence
+	}
 	cov := map[string]any{}
 	for k, v := range r.Cov {
 		cov[k] = v
